@@ -64,19 +64,21 @@ Proof.
 Qed.
 
 (* ------------------------------------------------------------------ *)
-(* the class tables are never written                                   *)
+(* the class tables are never written by the operation proper           *)
 
-Lemma step_classes w o : w_classes (fst (step w o)) = w_classes w.
+Definition final0 (w : world) (ops : list op) : world := fold_left (fun w o => fst (step0 w o)) ops w.
+
+Lemma step_classes0 w o : w_classes (fst (step0 w o)) = w_classes w.
 Proof.
-  destruct o; cbn [step]; try reflexivity;
+  destruct o; cbn [step0]; try reflexivity;
     match goal with |- context [if ?c then _ else _] => destruct c end; try reflexivity;
     match goal with |- context [step_inst ?w ?i ?o] => destruct (step_inst w i o) as [[? ?] ?] end; reflexivity.
 Qed.
 
-Lemma final_classes ops : forall w, w_classes (final w ops) = w_classes w.
+Lemma final_classes0 ops : forall w, w_classes (final0 w ops) = w_classes w.
 Proof.
-  induction ops as [|o ops IH]; intros w; [reflexivity|]. cbn [final fold_left].
-  change (fold_left (fun w o => fst (step w o)) ops ?x) with (final x ops). rewrite IH. apply step_classes.
+  induction ops as [|o ops IH]; intros w; [reflexivity|]. cbn [final0 fold_left].
+  change (fold_left (fun w o => fst (step0 w o)) ops ?x) with (final0 x ops). rewrite IH. apply step_classes0.
 Qed.
 
 (* ------------------------------------------------------------------ *)
@@ -84,24 +86,25 @@ Qed.
 
 Definition op_index (o : op) : option Z :=
   match o with
-  | Read i _ | Assign i _ _ _ | Mutate i _ _ | Register i _ _ _ | AddTrait i _ _ | Introspect i _ => Some i
+  | Read i _ | Assign i _ _ _ | Mutate i _ _ | Register i _ _ _ | AddTrait i _ _ | Introspect i _
+  | SetMeta i _ _ | AssignFrom i _ _ => Some i
   | NewInst _ => None
   end.
 
 Definition valid_index (w : world) (i : Z) : Prop := 0 <= i < Z.of_nat (length (w_insts w)).
 Definition inst_at (w : world) (i : Z) : inst := nth (Z.to_nat i) (w_insts w) (new_inst 0).
 
-(* the three shapes of a step *)
-Lemma step_shape w o :
+(* the three shapes of a step0 *)
+Lemma step_shape0 w o :
   (exists c, o = NewInst c) \/
-  (step w o = (w, error_value) /\ ~ valid_index w (target w o)) \/
+  (step0 w o = (w, error_value) /\ ~ valid_index w (target w o)) \/
   (exists ins' r nx,
       valid_index w (target w o) /\ op_index o = Some (target w o) /\
       step_inst w (inst_at w (target w o)) o = (ins', r, nx) /\
-      step w o = (mkW (w_classes w) (update_nth (Z.to_nat (target w o)) (fun _ => ins') (w_insts w)) nx, r)).
+      step0 w o = (mkW (w_classes w) (update_nth (Z.to_nat (target w o)) (fun _ => ins') (w_insts w)) nx, r)).
 Proof.
-  destruct o as [i n|i n content scalar|i n x|i n hid via|i n t|i md|c]; [| | | | | |left; eexists; reflexivity]; right;
-    cbn [step target op_index];
+  destruct o as [i n|i n content scalar|i n x|i n hid via|i n t|i n code|i n src|i md|c]; [| | | | | | | |left; eexists; reflexivity]; right;
+    cbn [step0 target op_index];
     (destruct ((i <? 0) || (Z.of_nat (length (w_insts w)) <=? i)) eqn:Ec;
      [left; split; [reflexivity|]; unfold valid_index; intros [H1 H2];
       apply orb_true_iff in Ec; destruct Ec as [E|E]; [apply Z.ltb_lt in E | apply Z.leb_le in E]; lia
@@ -111,44 +114,44 @@ Proof.
       apply Z.ltb_ge in E1; apply Z.leb_gt in E2; unfold valid_index; repeat split; try lia; reflexivity]).
 Qed.
 
-Lemma step_insts_length w o : (length (w_insts w) <= length (w_insts (fst (step w o))))%nat.
+Lemma step_insts_length0 w o : (length (w_insts w) <= length (w_insts (fst (step0 w o))))%nat.
 Proof.
-  destruct (step_shape w o) as [[c ->]|[[-> _]|(ins' & r & nx & _ & _ & _ & ->)]]; cbn [step fst w_insts].
+  destruct (step_shape0 w o) as [[c ->]|[[-> _]|(ins' & r & nx & _ & _ & _ & ->)]]; cbn [step0 fst w_insts].
   - rewrite app_length. cbn. lia.
   - lia.
   - rewrite update_nth_length. lia.
 Qed.
 
-Lemma step_other_instance w o j :
+Lemma step_other_instance0 w o j :
   (j < length (w_insts w))%nat -> op_index o <> Some (Z.of_nat j) ->
-  nth_error (w_insts (fst (step w o))) j = nth_error (w_insts w) j.
+  nth_error (w_insts (fst (step0 w o))) j = nth_error (w_insts w) j.
 Proof.
   intros Hj Hne.
-  destruct (step_shape w o) as [[c ->]|[[-> _]|(ins' & r & nx & Hv & Hi & _ & ->)]]; cbn [step fst w_insts].
+  destruct (step_shape0 w o) as [[c ->]|[[-> _]|(ins' & r & nx & Hv & Hi & _ & ->)]]; cbn [step0 fst w_insts].
   - apply nth_error_app1. exact Hj.
   - reflexivity.
   - apply nth_error_update_nth_other. intros E. apply Hne. rewrite Hi. f_equal. rewrite <- E.
     rewrite Z2Nat.id; [reflexivity | destruct Hv; lia].
 Qed.
 
-Lemma final_other_instance ops : forall w j,
+Lemma final_other_instance0 ops : forall w j,
   (j < length (w_insts w))%nat -> Forall (fun o => op_index o <> Some (Z.of_nat j)) ops ->
-  nth_error (w_insts (final w ops)) j = nth_error (w_insts w) j.
+  nth_error (w_insts (final0 w ops)) j = nth_error (w_insts w) j.
 Proof.
-  induction ops as [|o ops IH]; intros w j Hj Hall; [reflexivity|]. cbn [final fold_left].
-  change (fold_left (fun w o => fst (step w o)) ops ?x) with (final x ops).
+  induction ops as [|o ops IH]; intros w j Hj Hall; [reflexivity|]. cbn [final0 fold_left].
+  change (fold_left (fun w o => fst (step0 w o)) ops ?x) with (final0 x ops).
   inversion Hall as [|? ? Ho Hr]; subst. rewrite IH.
-  - apply step_other_instance; assumption.
-  - pose proof (step_insts_length w o). lia.
+  - apply step_other_instance0; assumption.
+  - pose proof (step_insts_length0 w o). lia.
   - exact Hr.
 Qed.
 
 (* an instance created after any history starts with the empty view, whatever happened before *)
-Lemma new_instance_is_empty w c :
-  nth_error (w_insts (fst (step w (NewInst c)))) (length (w_insts w)) = Some (new_inst c)
-  /\ w_next (fst (step w (NewInst c))) = w_next w.
+Lemma new_instance_is_empty0 w c :
+  nth_error (w_insts (fst (step0 w (NewInst c)))) (length (w_insts w)) = Some (new_inst c)
+  /\ w_next (fst (step0 w (NewInst c))) = w_next w.
 Proof.
-  cbn [step fst w_insts w_next]. split; [|reflexivity].
+  cbn [step0 fst w_insts w_next]. split; [|reflexivity].
   rewrite nth_error_app2 by lia. rewrite Nat.sub_diag. reflexivity.
 Qed.
 
@@ -162,11 +165,11 @@ Lemma notify_uninitialized hs n b new : notify hs n None b new = [].
 Proof. reflexivity. Qed.
 
 (* first read of an unassigned trait: the declared default, freshly allocated, stored, silent *)
-Lemma first_read w i n t :
+Lemma first_read0 w i n t :
   valid_index w i -> alookup n (i_dict (inst_at w i)) = None -> resolve w (inst_at w i) n = Some t ->
   let ins := inst_at w i in
   let v := fst (default_value t (w_next w)) in
-  step w (Read i n)
+  step0 w (Read i n)
   = (mkW (w_classes w)
          (update_nth (Z.to_nat i)
             (fun _ => mkI (i_cls ins) (i_dict ins ++ [(n, v)]) (i_itraits ins)
@@ -175,29 +178,29 @@ Lemma first_read w i n t :
          (snd (default_value t (w_next w))),
      v).
 Proof.
-  intros Hv Hd Hr. cbn zeta. cbn [step target]. rewrite (range_check w i Hv).
+  intros Hv Hd Hr. cbn zeta. cbn [step0 target]. rewrite (range_check w i Hv).
   unfold inst_at in *. cbn [step_inst]. rewrite Hd, Hr. unfold materialise.
   destruct (default_value t (w_next w)) as [v next'] eqn:Ed. cbn [fst snd].
   rewrite notify_uninitialized, app_nil_r. reflexivity.
 Qed.
 
 (* a read of a stored value returns that object and changes nothing at all *)
-Lemma stored_read w i n v :
-  valid_index w i -> alookup n (i_dict (inst_at w i)) = Some v -> step w (Read i n) = (w, v).
+Lemma stored_read0 w i n v :
+  valid_index w i -> alookup n (i_dict (inst_at w i)) = Some v -> step0 w (Read i n) = (w, v).
 Proof.
-  intros Hv Hd. cbn [step target]. rewrite (range_check w i Hv). unfold inst_at in *. cbn [step_inst].
+  intros Hv Hd. cbn [step0 target]. rewrite (range_check w i Hv). unfold inst_at in *. cbn [step_inst].
   rewrite Hd. f_equal. destruct w as [cs insts nx]. cbn [w_classes w_insts w_next] in *. f_equal.
   apply update_nth_id. destruct Hv as [H1 H2]. cbn in H2. lia.
 Qed.
 
-Lemma later_reads_same w i n t :
+Lemma later_reads_same0 w i n t :
   valid_index w i -> alookup n (i_dict (inst_at w i)) = None -> resolve w (inst_at w i) n = Some t ->
-  let w1 := fst (step w (Read i n)) in
-  let v := snd (step w (Read i n)) in
-  step w1 (Read i n) = (w1, v).
+  let w1 := fst (step0 w (Read i n)) in
+  let v := snd (step0 w (Read i n)) in
+  step0 w1 (Read i n) = (w1, v).
 Proof.
-  intros Hv Hd Hr. cbn zeta. rewrite (first_read w i n t Hv Hd Hr). cbn [fst snd].
-  apply stored_read.
+  intros Hv Hd Hr. cbn zeta. rewrite (first_read0 w i n t Hv Hd Hr). cbn [fst snd].
+  apply stored_read0.
   - unfold valid_index in *. cbn [w_insts]. rewrite update_nth_length. exact Hv.
   - unfold inst_at in *. cbn [w_insts]. rewrite nth_update_nth_same by (destruct Hv; lia).
     cbn [i_dict]. rewrite alookup_app, Hd. cbn. rewrite Z.eqb_refl. reflexivity.
@@ -286,23 +289,30 @@ Proof.
   - apply app_in.
 Qed.
 
+Lemma assign_inst_calls_ok w ins n content scalar :
+  calls_ok ins -> calls_ok (fst (fst (assign_inst w ins n content scalar))).
+Proof.
+  intros Hok. unfold assign_inst.
+  destruct (resolve w ins n) as [t|]; [|exact Hok].
+  destruct (assigned_value t content scalar (w_next w)) as [v nx].
+  destruct (hids ins t n) as [|h hs].
+  + cbn [fst]. apply calls_ok_mono; [exact Hok | intros m; apply aset_mono].
+  + destruct (alookup n (i_dict ins)) as [ov|] eqn:Ed; cbn [fst].
+    * apply calls_ok_mono; [exact Hok | intros m; apply aset_mono].
+    * destruct (counted t).
+      -- unfold calls_ok. cbn [i_calls i_dict].
+         apply (calls_ok_bump ins n); try assumption; [intros m0; apply aset_mono | apply aset_in].
+      -- apply calls_ok_mono; [exact Hok | intros m; apply aset_mono].
+Qed.
+
 Lemma step_inst_calls_ok w ins o : calls_ok ins -> calls_ok (fst (fst (step_inst w ins o))).
 Proof.
-  intros Hok. destruct o as [i n|i n content scalar|i n x|i n hid via|i n t|i md|c]; cbn [step_inst].
+  intros Hok. destruct o as [i n|i n content scalar|i n x|i n hid via|i n t|i n code|i n src|i md|c]; cbn [step_inst].
   - (* Read *)
     destruct (alookup n (i_dict ins)) eqn:Ed; [exact Hok|].
     destruct (resolve w ins n) as [t|]; [|exact Hok]. apply materialise_calls_ok; assumption.
   - (* Assign *)
-    destruct (resolve w ins n) as [t|]; [|exact Hok].
-    destruct (assigned_value t content scalar (w_next w)) as [v nx].
-    destruct (hids ins t n) as [|h hs].
-    + cbn [fst]. apply calls_ok_mono; [exact Hok | intros m; apply aset_mono].
-    + destruct (alookup n (i_dict ins)) as [ov|] eqn:Ed; cbn [fst].
-      * apply calls_ok_mono; [exact Hok | intros m; apply aset_mono].
-      * destruct (counted t).
-        -- unfold calls_ok. cbn [i_calls i_dict].
-           apply (calls_ok_bump ins n); try assumption; [intros m0; apply aset_mono | apply aset_in].
-        -- apply calls_ok_mono; [exact Hok | intros m; apply aset_mono].
+    apply assign_inst_calls_ok, Hok.
   - (* Mutate *)
     destruct (alookup n (i_dict ins)) as [v|] eqn:Ed; cbn [fst].
     + apply calls_ok_mono; [exact Hok | intros m; apply aset_mono].
@@ -318,6 +328,13 @@ Proof.
   - (* AddTrait *)
     match goal with |- context [if ?c then (w_next w, w_next w + 1) else (0, w_next w)] => destruct c end;
       cbn [fst]; (apply calls_ok_mono; [exact Hok | auto]).
+  - (* SetMeta *)
+    destruct (alookup n (i_itraits ins)); [|exact Hok]. destruct (alookup n (class_of w ins)); [exact Hok|].
+    cbn [fst]. apply calls_ok_mono; [exact Hok | auto].
+  - (* AssignFrom *)
+    destruct (alookup n (i_dict (nth (Z.to_nat src) (w_insts w) (new_inst 0)))) as [v|]; [|exact Hok].
+    destruct ((0 <=? src) && (src <? Z.of_nat (length (w_insts w)))); [|exact Hok].
+    destruct (payload_of v) as [c0 s0]. apply assign_inst_calls_ok, Hok.
   - exact Hok.
   - exact Hok.
 Qed.
@@ -336,12 +353,12 @@ Proof. induction l as [|a l IH]; intros [|n] H Hd; cbn; inversion H; subst; auto
 Lemma new_inst_calls_ok c : calls_ok (new_inst c).
 Proof. constructor. Qed.
 
-Lemma step_calls_ok w o : world_calls_ok w -> world_calls_ok (fst (step w o)).
+Lemma step_calls_ok0 w o : world_calls_ok w -> world_calls_ok (fst (step0 w o)).
 Proof.
   unfold world_calls_ok. intros H.
   assert (Hnth : forall k, calls_ok (nth k (w_insts w) (new_inst 0))).
   { intros k. apply Forall_nth; [exact H | apply new_inst_calls_ok]. }
-  destruct o; cbn [step];
+  destruct o; cbn [step0];
     try (match goal with |- context [if ?c then _ else _] => destruct c end; [exact H|];
          match goal with |- context [step_inst w ?i ?o] =>
            pose proof (step_inst_calls_ok w i o (Hnth _)) as Hs; destruct (step_inst w i o) as [[? ?] ?] end;
@@ -349,19 +366,19 @@ Proof.
   cbn [fst w_insts]. apply Forall_app. split; [exact H | constructor; [apply new_inst_calls_ok | constructor]].
 Qed.
 
-Lemma final_calls_ok ops : forall w, world_calls_ok w -> world_calls_ok (final w ops).
+Lemma final_calls_ok0 ops : forall w, world_calls_ok w -> world_calls_ok (final0 w ops).
 Proof.
-  induction ops as [|o ops IH]; intros w H; [exact H|]. cbn [final fold_left].
-  change (fold_left (fun w o => fst (step w o)) ops ?x) with (final x ops). apply IH, step_calls_ok, H.
+  induction ops as [|o ops IH]; intros w H; [exact H|]. cbn [final0 fold_left].
+  change (fold_left (fun w o => fst (step0 w o)) ops ?x) with (final0 x ops). apply IH, step_calls_ok0, H.
 Qed.
 
 (* from a world without instances: after any history every counter of every instance is 1 *)
-Lemma default_method_once cls next0 ops ins n c :
-  In ins (w_insts (final (mkW cls [] next0) ops)) -> In (n, c) (i_calls ins) ->
+Lemma default_method_once0 cls next0 ops ins n c :
+  In ins (w_insts (final0 (mkW cls [] next0) ops)) -> In (n, c) (i_calls ins) ->
   c = 1 /\ alookup n (i_dict ins) <> None.
 Proof.
-  intros Hin Hl. assert (H : world_calls_ok (final (mkW cls [] next0) ops)).
-  { apply final_calls_ok. constructor. }
+  intros Hin Hl. assert (H : world_calls_ok (final0 (mkW cls [] next0) ops)).
+  { apply final_calls_ok0. constructor. }
   unfold world_calls_ok in H. rewrite Forall_forall in H. specialize (H ins Hin). unfold calls_ok in H.
   rewrite Forall_forall in H. exact (H (n, c) Hl).
 Qed.
@@ -495,6 +512,31 @@ Section Alloc.
     pose proof (below_class_lookup w (w_next w) _ _ _ Hcls E). lia.
   Qed.
 
+  Lemma assign_inst_below ins n content scalar :
+    below (w_next w) (dict_oids (i_dict ins)) -> below (w_next w) (itrait_oids (i_itraits ins)) ->
+    let '(ins', r, nx) := assign_inst w ins n content scalar in
+    w_next w <= nx /\ below nx (inst_oids ins').
+  Proof.
+    intros Hd Hi.
+    assert (Hsame : w_next w <= w_next w /\ below (w_next w) (inst_oids ins)).
+    { split; [lia|]. rewrite inst_oids_split. apply below_app. split; assumption. }
+    unfold assign_inst.
+    destruct (resolve w ins n) as [t|] eqn:Er; [|exact Hsame].
+    unfold assigned_value.
+    pose proof (default_value_oids (mkT (t_kind t) content scalar 0 0 false 2 0) (w_next w) Hpos) as [H1 H2].
+    destruct (default_value (mkT (t_kind t) content scalar 0 0 false 2 0) (w_next w)) as [v nx]. cbn [fst snd] in *.
+    assert (Hv : below nx (value_oids v)) by (eapply Forall_impl; [|exact H2]; intros; cbn in *; lia).
+    assert (Hd' : below nx (dict_oids (aset n v (i_dict ins)))).
+    { apply below_dict_aset; [eapply below_weaken; eassumption | exact Hv]. }
+    assert (Hi' : below nx (itrait_oids (i_itraits ins))) by (eapply below_weaken; eassumption).
+    destruct (hids ins t n) as [|h hs].
+    + split; [exact H1|]. rewrite inst_oids_split. apply below_app. split; assumption.
+    + destruct (alookup n (i_dict ins)) as [ov|];
+        (split; [exact H1|]; rewrite inst_oids_split; cbn [i_dict i_itraits]; apply below_app; split; [exact Hd'|];
+         match goal with |- below _ (itrait_oids (if ?c then _ else _)) => destruct c end; [|exact Hi'];
+         apply ensure_itrait_below; [exact Hi'|]; pose proof (resolve_below ins n t Hi Er); lia).
+  Qed.
+
   (* every operation keeps the instance's objects below the (advanced) allocator *)
   Lemma step_inst_below ins o :
     below (w_next w) (inst_oids ins) ->
@@ -504,27 +546,14 @@ Section Alloc.
     intros Hb. rewrite inst_oids_split in Hb. apply below_app in Hb. destruct Hb as [Hd Hi].
     assert (Hsame : w_next w <= w_next w /\ below (w_next w) (inst_oids ins)).
     { split; [lia|]. rewrite inst_oids_split. apply below_app. split; assumption. }
-    destruct o as [i n|i n content scalar|i n x|i n hid via|i n t|i md|c]; cbn [step_inst].
+    destruct o as [i n|i n content scalar|i n x|i n hid via|i n t|i n code|i n src|i md|c]; cbn [step_inst].
     - (* Read *)
       destruct (alookup n (i_dict ins)); [exact Hsame|]. destruct (resolve w ins n) as [t|]; [|exact Hsame].
       pose proof (materialise_below ins n t Hd) as H. destruct (materialise w ins n t) as [[ins' v] nx].
       destruct H as (H1 & H2 & H3 & _). split; [exact H1|]. rewrite inst_oids_split, H3. apply below_app.
       split; [exact H2 | eapply below_weaken; eassumption].
     - (* Assign *)
-      destruct (resolve w ins n) as [t|] eqn:Er; [|exact Hsame].
-      unfold assigned_value.
-      pose proof (default_value_oids (mkT (t_kind t) content scalar 0 0 false) (w_next w) Hpos) as [H1 H2].
-      destruct (default_value (mkT (t_kind t) content scalar 0 0 false) (w_next w)) as [v nx]. cbn [fst snd] in *.
-      assert (Hv : below nx (value_oids v)) by (eapply Forall_impl; [|exact H2]; intros; cbn in *; lia).
-      assert (Hd' : below nx (dict_oids (aset n v (i_dict ins)))).
-      { apply below_dict_aset; [eapply below_weaken; eassumption | exact Hv]. }
-      assert (Hi' : below nx (itrait_oids (i_itraits ins))) by (eapply below_weaken; eassumption).
-      destruct (hids ins t n) as [|h hs].
-      + split; [exact H1|]. rewrite inst_oids_split. apply below_app. split; assumption.
-      + destruct (alookup n (i_dict ins)) as [ov|];
-          (split; [exact H1|]; rewrite inst_oids_split; cbn [i_dict i_itraits]; apply below_app; split; [exact Hd'|];
-           match goal with |- context [if ?c then _ else _] => destruct c end; [|exact Hi'];
-           apply ensure_itrait_below; [exact Hi'|]; pose proof (resolve_below ins n t Hi Er); lia).
+      apply assign_inst_below; assumption.
     - (* Mutate *)
       assert (Hfix : forall v its b, w_next w <= b -> below b (itrait_oids its) ->
                                      below b (itrait_oids (any_fix ins n v (items_fix w ins n v its)))).
@@ -553,7 +582,7 @@ Section Alloc.
       destruct (resolve w ins n) as [t|] eqn:Er; [|exact Hsame]. split; [lia|].
       rewrite inst_oids_split. cbn [i_dict i_itraits]. apply below_app. split; [exact Hd|].
       pose proof (resolve_below ins n t Hi Er) as Ht.
-      assert (H1 : below (w_next w) (itrait_oids (aset n (mkT (t_kind t) (t_content t) (t_scalar t) (t_doid t) (t_nnotif t + 1) (t_static t))
+      assert (H1 : below (w_next w) (itrait_oids (aset n (mkT (t_kind t) (t_content t) (t_scalar t) (t_doid t) (t_nnotif t + 1) (t_static t) (t_cmp t) (t_label t))
                                                        (ensure_itrait ins n t)))).
       { apply below_itraits_aset; [apply ensure_itrait_below; assumption | exact Ht]. }
       destruct via; [|exact H1].
@@ -585,6 +614,15 @@ Section Alloc.
       + split; [lia|]. rewrite inst_oids_split. cbn [i_dict i_itraits]. apply below_app. split; [exact Hd|].
         match goal with |- context [match ?o with Some _ => _ | None => _ end] => destruct o end;
           [|apply Hfire; [lia|]]; (apply below_itraits_aset; [exact H0 | cbn; lia]).
+    - (* SetMeta *)
+      destruct (alookup n (i_itraits ins)) as [t|] eqn:Et; [|exact Hsame].
+      destruct (alookup n (class_of w ins)); [exact Hsame|]. split; [lia|].
+      rewrite inst_oids_split. cbn [i_dict i_itraits]. apply below_app. split; [exact Hd|].
+      apply below_itraits_aset; [exact Hi|]. cbn [t_doid]. eapply below_itraits_lookup; eassumption.
+    - (* AssignFrom *)
+      destruct (alookup n (i_dict (nth (Z.to_nat src) (w_insts w) (new_inst 0)))) as [v|]; [|exact Hsame].
+      destruct ((0 <=? src) && (src <? Z.of_nat (length (w_insts w)))); [|exact Hsame].
+      destruct (payload_of v) as [c0 s0]. apply assign_inst_below; assumption.
     - exact Hsame.
     - exact Hsame.
   Qed.
@@ -613,11 +651,11 @@ Lemma wf_init cls next0 : 0 < next0 -> below next0 (flat_map (fun c => map (fun 
   wf (mkW cls [] next0).
 Proof. intros H1 H2. repeat split; try assumption; constructor. Qed.
 
-Lemma step_wf w o : wf w -> wf (fst (step w o)).
+Lemma step_wf0 w o : wf w -> wf (fst (step0 w o)).
 Proof.
-  intros (Hp & Hc & Hi & Hk). pose proof (step_calls_ok w o Hk) as Hk'.
-  destruct (step_shape w o) as [[c ->]|[[E _]|(ins' & r & nx & Hv & _ & Hs & E)]].
-  - cbn [step fst] in *. repeat split; try assumption. cbn [w_insts w_next].
+  intros (Hp & Hc & Hi & Hk). pose proof (step_calls_ok0 w o Hk) as Hk'.
+  destruct (step_shape0 w o) as [[c ->]|[[E _]|(ins' & r & nx & Hv & _ & Hs & E)]].
+  - cbn [step0 fst] in *. repeat split; try assumption. cbn [w_insts w_next].
     apply Forall_app. split; [exact Hi | constructor; [constructor | constructor]].
   - rewrite E in *. repeat split; assumption.
   - rewrite E in *. cbn [fst w_next w_insts w_classes] in *.
@@ -631,19 +669,19 @@ Proof.
     + intros _ _. exact Hb'.
 Qed.
 
-Lemma final_wf ops : forall w, wf w -> wf (final w ops).
+Lemma final_wf0 ops : forall w, wf w -> wf (final0 w ops).
 Proof.
-  induction ops as [|o ops IH]; intros w H; [exact H|]. cbn [final fold_left].
-  change (fold_left (fun w o => fst (step w o)) ops ?x) with (final x ops). apply IH, step_wf, H.
+  induction ops as [|o ops IH]; intros w H; [exact H|]. cbn [final0 fold_left].
+  change (fold_left (fun w o => fst (step0 w o)) ops ?x) with (final0 x ops). apply IH, step_wf0, H.
 Qed.
 
 (* A default read in a well-formed world returns objects that nothing else in
    the world refers to: not another instance, not this instance, not a class-level default. *)
-Lemma default_not_aliased w i n t :
+Lemma default_not_aliased0 w i n t :
   wf w -> valid_index w i -> alookup n (i_dict (inst_at w i)) = None -> resolve w (inst_at w i) n = Some t ->
-  forall x, In x (value_oids (snd (step w (Read i n)))) -> ~ In x (world_oids w).
+  forall x, In x (value_oids (snd (step0 w (Read i n)))) -> ~ In x (world_oids w).
 Proof.
-  intros (Hp & Hc & Hi & _) Hv Hd Hr x Hx Hin. rewrite (first_read w i n t Hv Hd Hr) in Hx. cbn [snd] in Hx.
+  intros (Hp & Hc & Hi & _) Hv Hd Hr x Hx Hin. rewrite (first_read0 w i n t Hv Hd Hr) in Hx. cbn [snd] in Hx.
   destruct (default_value_oids t (w_next w) Hp) as [_ Hf]. rewrite Forall_forall in Hf. specialize (Hf x Hx).
   assert (Hb : below (w_next w) (world_oids w)) by (apply world_oids_below; split; assumption).
   unfold below in Hb. rewrite Forall_forall in Hb. specialize (Hb x Hin). lia.
@@ -652,7 +690,7 @@ Qed.
 (* ------------------------------------------------------------------ *)
 (* the law holds on what the model shows                                *)
 
-Definition valid_op (w : world) (o : op) : Prop :=
+Definition valid_op0 (w : world) (o : op) : Prop :=
   match op_index o with Some i => valid_index w i | None => True end.
 
 Lemma others_ok_app i : forall insts j rest,
@@ -737,14 +775,14 @@ Proof.
   do 4 (try (destruct p as [p|p|]; try reflexivity)). contradiction.
 Qed.
 
-Lemma observe_normal w o ins' r nx :
-  step w o = (mkW (w_classes w) (update_nth (Z.to_nat (target w o)) (fun _ => ins') (w_insts w)) nx, r) ->
+Lemma observe_normal0 w o ins' r nx :
+  step0 w o = (mkW (w_classes w) (update_nth (Z.to_nat (target w o)) (fun _ => ins') (w_insts w)) nx, r) ->
   valid_index w (target w o) ->
-  observe w o
+  observe0 w o
   = mkO r ins' (map (fun x => digest (enc_inst x)) (update_nth (Z.to_nat (target w o)) (fun _ => ins') (w_insts w)))
         (digest (enc_classes (w_classes w))) nx (match v_shape r with 9 => true | _ => false end).
 Proof.
-  intros E Hv. unfold observe. rewrite E. cbn [w_insts w_classes w_next]. f_equal.
+  intros E Hv. unfold observe0. rewrite E. cbn [w_insts w_classes w_next]. f_equal.
   apply nth_update_nth_same. destruct Hv. lia.
 Qed.
 
@@ -811,12 +849,12 @@ Qed.
 
 (* Main theorem: every clause of the law holds on what the model shows, for
    every operation in every well-formed world. *)
-Theorem law_on_model w o : wf w -> valid_op w o -> law_step w o (observe w o) = [].
+Theorem law_on_model0 w o : wf w -> valid_op0 w o -> law_core w o (observe0 w o) = [].
 Proof.
-  intros Hwf Hvo. destruct (step_shape w o) as [[c ->]|[[Eerr Hbad]|(ins' & r & nx & Hv & Hi & Hs & E)]].
+  intros Hwf Hvo. destruct (step_shape0 w o) as [[c ->]|[[Eerr Hbad]|(ins' & r & nx & Hv & Hi & Hs & E)]].
   - (* NewInst *)
-    unfold observe, law_step. cbn [addressed negb].
-    cbn [step target w_insts w_classes w_next is_default_read is_stored_read is_read negb orb app
+    unfold observe0, law_core. cbn [addressed negb].
+    cbn [step0 target w_insts w_classes w_next is_default_read is_stored_read is_read negb orb app
                                    o_ret o_target o_digests o_classes o_exc].
     rewrite Nat2Z.id. rewrite app_nth2 by lia. rewrite Nat.sub_diag. cbn [nth new_inst i_calls forallb i_log].
     rewrite map_app, others_ok_app. unfold zlen. rewrite app_length, !map_length. cbn [length map].
@@ -824,20 +862,20 @@ Proof.
     replace (Z.of_nat (length (w_insts w) + 1) =? Z.of_nat (length (w_insts w)) + 1) with true
       by (symmetry; apply Z.eqb_eq; lia).
     rewrite nth_error_app2 by (rewrite map_length; lia). rewrite map_length, Nat.sub_diag. cbn. rewrite Z.eqb_refl. reflexivity.
-  - exfalso. unfold valid_op in Hvo. destruct o; cbn [op_index target] in *; try (apply Hbad; exact Hvo).
-    cbn [step] in Eerr. unfold error_value in Eerr. congruence.
-  - rewrite (observe_normal w o ins' r nx E Hv).
+  - exfalso. unfold valid_op0 in Hvo. destruct o; cbn [op_index target] in *; try (apply Hbad; exact Hvo).
+    cbn [step0] in Eerr. unfold error_value in Eerr. congruence.
+  - rewrite (observe_normal0 w o ins' r nx E Hv).
     assert (Hno : forall c, o <> NewInst c) by (intros c ->; discriminate).
     assert (Hc : calls_ok ins').
     { destruct Hwf as (_ & _ & _ & Hk).
       pose proof (step_inst_calls_ok w (inst_at w (target w o)) o) as H. rewrite Hs in H. apply H.
       unfold inst_at. apply Forall_nth; [exact Hk | apply new_inst_calls_ok]. }
     pose proof (common_clauses w o ins' r nx Hwf Hv Hno Hc) as Hcommon. cbn zeta in Hcommon.
-    unfold law_step.
+    unfold law_core.
     assert (Hadd : addressed w o = true).
     { unfold addressed. destruct o; try reflexivity; apply in_range; exact Hv. }
     rewrite Hadd. cbn [negb]. fold (inst_at w (target w o)).
-    destruct o as [i n|i n content scalar|i n x|i n hid via|i n t|i md|c]; try (exfalso; eapply Hno; reflexivity);
+    destruct o as [i n|i n content scalar|i n x|i n hid via|i n t|i n code|i n src|i md|c]; try (exfalso; eapply Hno; reflexivity);
       try (cbn [is_default_read is_stored_read is_read negb orb chk app]; exact Hcommon).
     (* Read *)
     pose proof (read_clauses w i n ins' r nx Hwf Hv Hs) as Hr. cbn zeta in Hr. cbn [target] in *.
@@ -845,7 +883,501 @@ Proof.
 Qed.
 
 (* ------------------------------------------------------------------ *)
-(* histories                                                            *)
+(* tracking                                                             *)
+
+Lemma track_observe0 w o : valid_op0 w o -> track0 w o (observe0 w o) = fst (step0 w o).
+Proof.
+  intros Hvo. destruct (step_shape0 w o) as [[c ->]|[[Eerr Hbad]|(ins' & r & nx & Hv & Hi & Hs & E)]].
+  - unfold track0, observe0. cbn [step0 fst o_target o_next w_insts w_next w_classes target].
+    rewrite Nat2Z.id, app_nth2 by lia. rewrite Nat.sub_diag. reflexivity.
+  - exfalso. unfold valid_op0 in Hvo. destruct o; cbn [op_index target] in *; try (apply Hbad; exact Hvo).
+    cbn [step0] in Eerr. unfold error_value in Eerr. congruence.
+  - rewrite (observe_normal0 w o ins' r nx E Hv), E. unfold track0. cbn [o_target o_next fst].
+    destruct o; try reflexivity. discriminate Hi.
+Qed.
+
+
+(* ------------------------------------------------------------------ *)
+(* the operations added for definitions and hand-over                   *)
+
+Lemma introspect_inert0 w i md : valid_index w i -> step0 w (Introspect i md) = (w, mkV 0 []).
+Proof.
+  intros Hv. cbn [step0 target]. rewrite (range_check w i Hv). cbn [step_inst]. f_equal.
+  destruct w as [cs insts nx]. cbn [w_classes w_insts w_next] in *. f_equal.
+  apply update_nth_id. destruct Hv as [H1 H2]. cbn in H2. lia.
+Qed.
+
+(* setting metadata on a trait added to instance i: only that definition of that instance changes *)
+Lemma set_meta_effect0 w i n code t :
+  valid_index w i -> alookup n (i_itraits (inst_at w i)) = Some t -> alookup n (class_of w (inst_at w i)) = None ->
+  let ins := inst_at w i in
+  step0 w (SetMeta i n code)
+  = (mkW (w_classes w)
+         (update_nth (Z.to_nat i)
+            (fun _ => mkI (i_cls ins) (i_dict ins)
+                          (aset n (mkT (t_kind t) (t_content t) (t_scalar t) (t_doid t) (t_nnotif t) (t_static t) (t_cmp t) code)
+                                (i_itraits ins))
+                          (i_calls ins) (i_log ins) (i_regs ins))
+            (w_insts w))
+         (w_next w),
+     mkV 0 []).
+Proof.
+  intros Hv Ht Hc. cbn zeta. cbn [step0 target]. rewrite (range_check w i Hv). unfold inst_at in *.
+  cbn [step_inst]. rewrite Ht, Hc. reflexivity.
+Qed.
+
+(* the value an assignment stores *)
+Lemma assign_inst_stores w ins n content scalar t :
+  resolve w ins n = Some t ->
+  alookup n (i_dict (fst (fst (assign_inst w ins n content scalar))))
+  = Some (fst (assigned_value t content scalar (w_next w))).
+Proof.
+  intros Hr. unfold assign_inst. rewrite Hr. destruct (assigned_value t content scalar (w_next w)) as [v nx]. cbn [fst].
+  destruct (hids ins t n) as [|h hs]; [cbn [fst i_dict]; rewrite alookup_aset, Z.eqb_refl; reflexivity|].
+  destruct (alookup n (i_dict ins)); cbn [fst i_dict]; rewrite alookup_aset, Z.eqb_refl; reflexivity.
+Qed.
+
+(* handing instance src's container to instance i's trait: i stores a NEW container (no object of the world,
+   in particular not src's), src is untouched *)
+Lemma assign_from_copies0 w i n src t v :
+  wf w -> valid_index w i -> valid_index w src -> src <> i ->
+  alookup n (i_dict (inst_at w src)) = Some v -> resolve w (inst_at w i) n = Some t ->
+  let w' := fst (step0 w (AssignFrom i n src)) in
+  nth_error (w_insts w') (Z.to_nat src) = nth_error (w_insts w) (Z.to_nat src) /\
+  w_classes w' = w_classes w /\
+  exists v', alookup n (i_dict (inst_at w' i)) = Some v' /\
+             vcontent v' = vcontent (fst (assigned_value t (fst (payload_of v)) (snd (payload_of v)) (w_next w))) /\
+             forall x, In x (value_oids v') -> ~ In x (world_oids w).
+Proof.
+  intros Hwf Hv Hs Hne Hsv Hr. cbn zeta. split; [|split].
+  - apply step_other_instance0; [destruct Hs; lia|]. cbn [op_index]. intros E. injection E as E.
+    apply Hne. rewrite E. rewrite Z2Nat.id; [reflexivity | destruct Hs; lia].
+  - apply step_classes0.
+  - cbn [step0 target]. rewrite (range_check w i Hv). unfold inst_at in *. cbn [step_inst]. rewrite Hsv.
+    pose proof (in_range w src Hs) as Hir. unfold zlen in Hir. rewrite Hir.
+    destruct (payload_of v) as [c0 s0] eqn:Ep. cbn [fst snd].
+    pose proof (assign_inst_stores w (nth (Z.to_nat i) (w_insts w) (new_inst 0)) n c0 s0 t Hr) as Hst.
+    destruct (assign_inst w (nth (Z.to_nat i) (w_insts w) (new_inst 0)) n c0 s0) as [[ins' r] nx]. cbn [fst] in *.
+    cbn [w_insts]. rewrite nth_update_nth_same by (destruct Hv; lia).
+    exists (fst (assigned_value t c0 s0 (w_next w))). split; [exact Hst|]. split; [reflexivity|].
+    intros x Hx Hin. destruct Hwf as (Hp & Hc & Hi & _).
+    unfold assigned_value in Hx.
+    destruct (default_value_oids (mkT (t_kind t) c0 s0 0 0 false 2 0) (w_next w) Hp) as [_ Hf].
+    rewrite Forall_forall in Hf. specialize (Hf x Hx).
+    assert (Hb : below (w_next w) (world_oids w)) by (apply world_oids_below; split; assumption).
+    unfold below in Hb. rewrite Forall_forall in Hb. specialize (Hb x Hin). lia.
+Qed.
+
+(* assignment notifies by comparison mode: none = always, identity = unless the very same (scalar) object,
+   equality = unless equal *)
+Lemma assign_log_by_mode w ins n content scalar t ov h hs :
+  resolve w ins n = Some t -> hids ins t n = h :: hs -> alookup n (i_dict ins) = Some ov ->
+  let v := fst (assigned_value t content scalar (w_next w)) in
+  let same := (shape_class (v_shape ov) =? shape_class (v_shape v)) && zlist_eqb (vcontent ov) (vcontent v) in
+  let calls := map (fun x => (x, n, vcontent ov, vcontent v)) (h :: hs) in
+  i_log (fst (fst (assign_inst w ins n content scalar)))
+  = i_log ins ++ (if t_cmp t =? 0 then calls
+                  else if (v_shape v =? 0) && same then []
+                  else if (t_cmp t =? 2) && same then [] else calls).
+Proof.
+  intros Hr Hh Hd. cbn zeta. unfold assign_inst. rewrite Hr.
+  destruct (assigned_value t content scalar (w_next w)) as [v nx]. cbn [fst]. rewrite Hh, Hd. cbn [fst i_log].
+  f_equal. destruct (t_cmp t =? 0) eqn:E0.
+  - cbn [notify]. assert (E2 : (t_cmp t =? 2) = false) by (apply Z.eqb_eq in E0; rewrite E0; reflexivity).
+    rewrite E2. reflexivity.
+  - destruct ((v_shape v =? 0) && _) eqn:Es; cbn [negb]; [reflexivity|].
+    destruct (t_cmp t =? 2); cbn [notify andb]; [|reflexivity].
+    destruct ((shape_class (v_shape ov) =? shape_class (v_shape v)) && zlist_eqb (vcontent ov) (vcontent v)); reflexivity.
+Qed.
+
+(* ================================================================== *)
+(* wildcard names resolved on demand: [step w o = step0 (resolved w o) o] *)
+
+Lemma alookup_insert_row_other k n t : k <> n -> forall c, alookup k (insert_row n t c) = alookup k c.
+Proof.
+  intros Hne. induction c as [|[k2 t2] r IH]; cbn [insert_row alookup].
+  - destruct (Z.eqb_spec k n); [contradiction | reflexivity].
+  - destruct ((k2 <? 0) || (n <? k2)); cbn [alookup].
+    + destruct (Z.eqb_spec k n); [contradiction | reflexivity].
+    + destruct (k =? k2); [reflexivity | exact IH].
+Qed.
+
+Lemma alookup_insert_row_same n t : forall c, alookup n c = None -> alookup n (insert_row n t c) = Some t.
+Proof.
+  induction c as [|[k2 t2] r IH]; cbn [insert_row alookup]; intros H.
+  - rewrite Z.eqb_refl. reflexivity.
+  - destruct (Z.eqb_spec n k2) as [->|Hne]; [discriminate|].
+    destruct ((k2 <? 0) || (n <? k2)); cbn [alookup].
+    + rewrite Z.eqb_refl. reflexivity.
+    + destruct (Z.eqb_spec n k2); [contradiction | apply IH, H].
+Qed.
+
+Lemma below_insert_row b n t c : below b (itrait_oids c) -> t_doid t < b -> below b (itrait_oids (insert_row n t c)).
+Proof.
+  intros Hc Ht. induction c as [|[k2 t2] r IH]; cbn [insert_row itrait_oids map snd].
+  - constructor; [exact Ht | constructor].
+  - inversion Hc as [|? ? H1 H2]; subst. destruct ((k2 <? 0) || (n <? k2)); cbn [itrait_oids map snd].
+    + constructor; [exact Ht | exact Hc].
+    + constructor; [exact H1 | apply IH, H2].
+Qed.
+
+Lemma nth_update_nth_other {A} (f : A -> A) (d : A) l : forall n j, n <> j -> nth j (update_nth n f l) d = nth j l d.
+Proof. induction l as [|a l IH]; intros [|n] [|j] H; cbn; try reflexivity; try congruence. apply IH. congruence. Qed.
+
+Lemma nth_update_nth_any {A} (f : A -> A) (d : A) l : forall n j,
+  nth j (update_nth n f l) d = if (Nat.eqb n j && Nat.ltb j (length l))%bool then f (nth j l d) else nth j l d.
+Proof.
+  induction l as [|a l IH]; intros n j.
+  - replace (update_nth n f []) with (@nil A) by (destruct n; reflexivity). cbn [length].
+    replace (Nat.ltb j 0) with false by (symmetry; apply Nat.ltb_ge; lia). rewrite andb_false_r. reflexivity.
+  - destruct n as [|n], j as [|j]; cbn [update_nth nth length]; try reflexivity.
+    rewrite IH. reflexivity.
+Qed.
+
+(* what on-demand resolution does to the class tables and to the target instance *)
+Lemma prefix_use_cases w ins o :
+  prefix_use w ins o = (w_classes w, ins) \/
+  exists n t, op_name o = Some n /\ wild_range n = true /\ alookup n (i_itraits ins) = None /\
+              alookup n (class_of w ins) = None /\ prefix_resolve (class_of w ins) n = Some t /\
+              prefix_use w ins o
+              = (update_nth (Z.to_nat (i_cls ins)) (insert_row n t) (w_classes w), fire_trait_added w ins).
+Proof.
+  unfold prefix_use. destruct (op_name o) as [n|]; [|left; reflexivity].
+  destruct (wild_range n) eqn:Er; [|left; reflexivity].
+  destruct (alookup n (i_itraits ins)) eqn:E1; [left; reflexivity|].
+  destruct (alookup n (class_of w ins)) eqn:E2; [left; reflexivity|].
+  destruct (prefix_resolve (class_of w ins) n) as [t|] eqn:E3; [|left; reflexivity].
+  right. exists n, t. repeat split; assumption.
+Qed.
+
+Lemma resolved_cases w o :
+  resolved w o = w \/
+  exists cls' ins0, valid_index w (target w o) /\ (forall c, o <> NewInst c) /\
+                    prefix_use w (inst_at w (target w o)) o = (cls', ins0) /\
+                    resolved w o = mkW cls' (update_nth (Z.to_nat (target w o)) (fun _ => ins0) (w_insts w)) (w_next w).
+Proof.
+  destruct o as [i n|i n content scalar|i n x|i n hid via|i n t|i n code|i n src|i md|c]; [| | | | | | | |left; reflexivity];
+    unfold resolved; cbn [target];
+    (destruct ((i <? 0) || (Z.of_nat (length (w_insts w)) <=? i)) eqn:Ec; [left; reflexivity|]);
+    right; fold (inst_at w i);
+    match goal with |- context [prefix_use w (inst_at w i) ?o] => destruct (prefix_use w (inst_at w i) o) as [cls' ins0] eqn:Ep end;
+    exists cls', ins0; apply orb_false_iff in Ec; destruct Ec as [E1 E2]; apply Z.ltb_ge in E1; apply Z.leb_gt in E2;
+    (split; [unfold valid_index; lia|]); (split; [intros c; discriminate|]); split; reflexivity.
+Qed.
+
+Lemma world_eta w : mkW (w_classes w) (w_insts w) (w_next w) = w.
+Proof. destruct w; reflexivity. Qed.
+
+Lemma resolved_noop w o :
+  (forall cls' ins0, prefix_use w (inst_at w (target w o)) o = (cls', ins0) -> cls' = w_classes w /\ ins0 = inst_at w (target w o)) ->
+  resolved w o = w.
+Proof.
+  intros H. destruct (resolved_cases w o) as [E|(cls' & ins0 & Hv & _ & Ep & E)]; [exact E|].
+  destruct (H _ _ Ep) as [-> ->]. rewrite E. unfold inst_at. rewrite update_nth_id by (destruct Hv; lia).
+  apply world_eta.
+Qed.
+
+Lemma resolved_if_resolvable w o :
+  (op_name o = None \/ exists n, op_name o = Some n /\ (wild_range n = false \/ resolve w (inst_at w (target w o)) n <> None)) ->
+  resolved w o = w.
+Proof.
+  intros H. apply resolved_noop. intros cls' ins0 Ep.
+  destruct (prefix_use_cases w (inst_at w (target w o)) o) as [E|(n & t & Hn & Hr & H1 & H2 & _ & _)].
+  - rewrite E in Ep. injection Ep as <- <-. split; reflexivity.
+  - exfalso. destruct H as [H|(n' & Hn' & Hor)]; [congruence|].
+    rewrite Hn in Hn'. injection Hn' as <-. destruct Hor as [Hw|Hres]; [congruence|].
+    apply Hres. unfold resolve. rewrite H1. exact H2.
+Qed.
+
+Lemma resolved_length w o : length (w_insts (resolved w o)) = length (w_insts w).
+Proof.
+  destruct (resolved_cases w o) as [->|(cls' & ins0 & _ & _ & _ & ->)]; [reflexivity|].
+  cbn [w_insts]. apply update_nth_length.
+Qed.
+
+Lemma resolved_next w o : w_next (resolved w o) = w_next w.
+Proof. destruct (resolved_cases w o) as [->|(cls' & ins0 & _ & _ & _ & ->)]; reflexivity. Qed.
+
+Lemma resolved_target w o : target (resolved w o) o = target w o.
+Proof. destruct o; reflexivity. Qed.
+
+Lemma resolved_other_instance w o j :
+  op_index o <> Some (Z.of_nat j) -> nth_error (w_insts (resolved w o)) j = nth_error (w_insts w) j.
+Proof.
+  intros Hne. destruct (resolved_cases w o) as [->|(cls' & ins0 & Hv & Hno & _ & ->)]; [reflexivity|].
+  cbn [w_insts]. apply nth_error_update_nth_other. intros E. apply Hne.
+  destruct o; cbn [op_index target] in *; try (f_equal; rewrite <- E; rewrite Z2Nat.id; [reflexivity | destruct Hv; lia]).
+  exfalso. eapply Hno. reflexivity.
+Qed.
+
+(* a class table only ever gains rows: every definition that is there stays exactly as it is *)
+Lemma resolved_classes_keep w o c n t :
+  alookup n (nth c (w_classes w) []) = Some t -> alookup n (nth c (w_classes (resolved w o)) []) = Some t.
+Proof.
+  intros H. destruct (resolved_cases w o) as [->|(cls' & ins0 & Hv & _ & Ep & ->)]; [exact H|]. cbn [w_classes].
+  destruct (prefix_use_cases w (inst_at w (target w o)) o) as [E|(n' & t' & _ & _ & _ & H2 & _ & E)];
+    rewrite E in Ep; injection Ep as <- <-; [exact H|].
+  rewrite nth_update_nth_any. destruct (_ && _)%bool eqn:Eb; [|exact H].
+  apply andb_true_iff in Eb. destruct Eb as [Eb _]. apply Nat.eqb_eq in Eb. subst c.
+  rewrite alookup_insert_row_other; [exact H|]. intros ->. unfold class_of in H2. congruence.
+Qed.
+
+Lemma resolved_classes_length w o : length (w_classes (resolved w o)) = length (w_classes w).
+Proof.
+  destruct (resolved_cases w o) as [->|(cls' & ins0 & Hv & _ & Ep & ->)]; [reflexivity|]. cbn [w_classes].
+  destruct (prefix_use_cases w (inst_at w (target w o)) o) as [E|(n' & t' & _ & _ & _ & _ & _ & E)];
+    rewrite E in Ep; injection Ep as <- <-; [reflexivity | apply update_nth_length].
+Qed.
+
+(* a class without a wildcard trait never changes *)
+Lemma resolved_classes_without_wildcard w o :
+  (forall c n, prefix_resolve (nth c (w_classes w) []) n = None) -> w_classes (resolved w o) = w_classes w.
+Proof.
+  intros Hnw. destruct (resolved_cases w o) as [->|(cls' & ins0 & Hv & _ & Ep & ->)]; [reflexivity|]. cbn [w_classes].
+  destruct (prefix_use_cases w (inst_at w (target w o)) o) as [E|(n' & t' & _ & _ & _ & _ & H3 & E)];
+    rewrite E in Ep; injection Ep as <- <-; [reflexivity|].
+  unfold class_of in H3. rewrite Hnw in H3. discriminate.
+Qed.
+
+Lemma fire_calls_ok w ins : calls_ok ins -> calls_ok (fire_trait_added w ins).
+Proof. intros H. unfold fire_trait_added. apply calls_ok_mono; [exact H | auto]. Qed.
+
+Lemma resolved_wf w o : wf w -> wf (resolved w o).
+Proof.
+  intros Hwf. destruct (resolved_cases w o) as [->|(cls' & ins0 & Hv & _ & Ep & ->)]; [exact Hwf|].
+  destruct Hwf as (Hp & Hc & Hi & Hk). unfold wf, class_oids. cbn [w_next w_classes w_insts].
+  assert (Hins : below (w_next w) (inst_oids (inst_at w (target w o))) /\ calls_ok (inst_at w (target w o))).
+  { unfold inst_at. split.
+    - apply (Forall_nth (fun ins => below (w_next w) (inst_oids ins))); [exact Hi | constructor].
+    - apply Forall_nth; [exact Hk | apply new_inst_calls_ok]. }
+  destruct Hins as [Hb Hcok].
+  destruct (prefix_use_cases w (inst_at w (target w o)) o) as [E|(n & t & _ & _ & _ & _ & H3 & E)];
+    rewrite E in Ep; injection Ep as <- <-.
+  - split; [exact Hp|]. split; [exact Hc|]. split.
+    + apply Forall_update_nth; [exact Hi | intros _ _; exact Hb].
+    + unfold world_calls_ok. cbn [w_insts]. apply Forall_update_nth; [exact Hk | intros _ _; exact Hcok].
+  - assert (Ht : t_doid t < w_next w).
+    { unfold prefix_resolve, class_of in H3.
+      destruct (alookup (template_name n) (nth (Z.to_nat (i_cls (inst_at w (target w o)))) (w_classes w) [])) eqn:E1.
+      - injection H3 as <-. eapply below_class_lookup; eassumption.
+      - eapply below_class_lookup; eassumption. }
+    split; [exact Hp|]. split; [|split].
+    + unfold class_oids in Hc. apply below_flat_map. apply below_flat_map in Hc.
+      apply Forall_update_nth; [exact Hc|]. intros c0 Hc0. apply below_insert_row; assumption.
+    + apply Forall_update_nth; [exact Hi|]. intros _ _. unfold fire_trait_added.
+      rewrite inst_oids_split in *. cbn [i_dict i_itraits]. apply below_app in Hb. destruct Hb as [Hb1 Hb2].
+      apply below_app. split; [exact Hb1|]. apply (fire_below w Hc _ (inst_at w (target w o)) (w_next w)); [lia | exact Hb2].
+    + unfold world_calls_ok. cbn [w_insts]. apply Forall_update_nth; [exact Hk | intros _ _; apply fire_calls_ok, Hcok].
+Qed.
+
+(* ------------------------------------------------------------------ *)
+(* the theorems for the step with on-demand resolution                  *)
+
+Definition valid_op (w : world) (o : op) : Prop := valid_op0 w o.
+
+Lemma valid_op_resolved w o : valid_op w o -> valid_op0 (resolved w o) o.
+Proof.
+  unfold valid_op, valid_op0. destruct (op_index o) as [i|]; [|auto]. unfold valid_index.
+  rewrite resolved_length. auto.
+Qed.
+
+Lemma step_wf w o : wf w -> wf (fst (step w o)).
+Proof. intros H. unfold step. apply step_wf0, resolved_wf, H. Qed.
+
+Lemma final_wf ops : forall w, wf w -> wf (final w ops).
+Proof.
+  induction ops as [|o ops IH]; intros w H; [exact H|]. cbn [final fold_left].
+  change (fold_left (fun w o => fst (step w o)) ops ?x) with (final x ops). apply IH, step_wf, H.
+Qed.
+
+Lemma step_insts_length w o : (length (w_insts w) <= length (w_insts (fst (step w o))))%nat.
+Proof. unfold step. pose proof (step_insts_length0 (resolved w o) o). rewrite resolved_length in H. exact H. Qed.
+
+Lemma step_other_instance w o j :
+  (j < length (w_insts w))%nat -> op_index o <> Some (Z.of_nat j) ->
+  nth_error (w_insts (fst (step w o))) j = nth_error (w_insts w) j.
+Proof.
+  intros Hj Hne. unfold step. rewrite step_other_instance0; [apply resolved_other_instance, Hne | | exact Hne].
+  rewrite resolved_length. exact Hj.
+Qed.
+
+Lemma final_other_instance ops : forall w j,
+  (j < length (w_insts w))%nat -> Forall (fun o => op_index o <> Some (Z.of_nat j)) ops ->
+  nth_error (w_insts (final w ops)) j = nth_error (w_insts w) j.
+Proof.
+  induction ops as [|o ops IH]; intros w j Hj Hall; [reflexivity|]. cbn [final fold_left].
+  change (fold_left (fun w o => fst (step w o)) ops ?x) with (final x ops).
+  inversion Hall as [|? ? Ho Hr]; subst. rewrite IH.
+  - apply step_other_instance; assumption.
+  - pose proof (step_insts_length w o). lia.
+  - exact Hr.
+Qed.
+
+(* every definition of every class stays exactly as it is; tables only gain the rows of wildcard names *)
+Lemma step_classes_keep w o c n t :
+  alookup n (nth c (w_classes w) []) = Some t -> alookup n (nth c (w_classes (fst (step w o))) []) = Some t.
+Proof. intros H. unfold step. rewrite step_classes0. apply resolved_classes_keep, H. Qed.
+
+Lemma final_classes_keep ops : forall w c n t,
+  alookup n (nth c (w_classes w) []) = Some t -> alookup n (nth c (w_classes (final w ops)) []) = Some t.
+Proof.
+  induction ops as [|o ops IH]; intros w c n t H; [exact H|]. cbn [final fold_left].
+  change (fold_left (fun w o => fst (step w o)) ops ?x) with (final x ops). apply IH, step_classes_keep, H.
+Qed.
+
+Definition no_wildcard (cls : list (list (Z * tdef))) : Prop := forall c n, prefix_resolve (nth c cls []) n = None.
+
+Lemma step_classes_without_wildcard w o : no_wildcard (w_classes w) -> w_classes (fst (step w o)) = w_classes w.
+Proof. intros H. unfold step. rewrite step_classes0. apply resolved_classes_without_wildcard, H. Qed.
+
+Lemma final_classes_without_wildcard ops : forall w, no_wildcard (w_classes w) -> w_classes (final w ops) = w_classes w.
+Proof.
+  induction ops as [|o ops IH]; intros w H; [reflexivity|]. cbn [final fold_left].
+  change (fold_left (fun w o => fst (step w o)) ops ?x) with (final x ops).
+  rewrite IH; [apply step_classes_without_wildcard, H|]. rewrite step_classes_without_wildcard by exact H. exact H.
+Qed.
+
+(* the one sanctioned change: first use of a wildcard name *)
+Lemma wildcard_first_use w i n t :
+  valid_index w i -> wild_range n = true ->
+  alookup n (i_itraits (inst_at w i)) = None -> alookup n (class_of w (inst_at w i)) = None ->
+  prefix_resolve (class_of w (inst_at w i)) n = Some t ->
+  let ins := inst_at w i in
+  let wr := mkW (update_nth (Z.to_nat (i_cls ins)) (insert_row n t) (w_classes w))
+                (update_nth (Z.to_nat i) (fun _ => fire_trait_added w ins) (w_insts w)) (w_next w) in
+  resolved w (Read i n) = wr /\ step w (Read i n) = step0 wr (Read i n) /\
+  ((Z.to_nat (i_cls ins) < length (w_classes w))%nat -> resolve wr (inst_at wr i) n = Some t).
+Proof.
+  intros Hv Hr H1 H2 H3. cbn zeta.
+  assert (E : resolved w (Read i n)
+              = mkW (update_nth (Z.to_nat (i_cls (inst_at w i))) (insert_row n t) (w_classes w))
+                    (update_nth (Z.to_nat i) (fun _ => fire_trait_added w (inst_at w i)) (w_insts w)) (w_next w)).
+  { unfold resolved. cbn [target]. rewrite (range_check w i Hv). fold (inst_at w i).
+    unfold prefix_use. cbn [op_name]. rewrite Hr, H1, H2, H3. reflexivity. }
+  split; [exact E|]. split; [unfold step; rewrite E; reflexivity|].
+  intros Hc. unfold resolve, inst_at, class_of. cbn [w_insts w_classes].
+  rewrite nth_update_nth_same by (destruct Hv; lia). unfold fire_trait_added at 1 2. cbn [i_itraits i_cls].
+  fold (inst_at w i).
+  assert (Hn : alookup n (match alookup trait_added (i_itraits (inst_at w i)), alookup trait_added (class_of w (inst_at w i)) with
+                          | None, Some ta => i_itraits (inst_at w i) ++ [(trait_added, ta)]
+                          | _, _ => i_itraits (inst_at w i)
+                          end) = None).
+  { destruct (alookup trait_added (i_itraits (inst_at w i))); [exact H1|].
+    destruct (alookup trait_added (class_of w (inst_at w i))); [|exact H1].
+    rewrite alookup_app, H1. cbn. unfold wild_range in Hr. apply andb_true_iff in Hr. destruct Hr as [Hr _].
+    apply Z.leb_le in Hr. destruct (Z.eqb_spec n trait_added) as [E0|]; [unfold trait_added in E0; lia | reflexivity]. }
+  rewrite Hn. rewrite nth_update_nth_same by exact Hc. apply alookup_insert_row_same. exact H2.
+Qed.
+
+(* ---- reads, when the name is already resolvable ---- *)
+Lemma first_read w i n t :
+  valid_index w i -> alookup n (i_dict (inst_at w i)) = None -> resolve w (inst_at w i) n = Some t ->
+  let ins := inst_at w i in
+  let v := fst (default_value t (w_next w)) in
+  step w (Read i n)
+  = (mkW (w_classes w)
+         (update_nth (Z.to_nat i)
+            (fun _ => mkI (i_cls ins) (i_dict ins ++ [(n, v)]) (i_itraits ins)
+                          (if counted t then bump n (i_calls ins) else i_calls ins) (i_log ins) (i_regs ins))
+            (w_insts w))
+         (snd (default_value t (w_next w))),
+     v).
+Proof.
+  intros Hv Hd Hr. unfold step. rewrite resolved_if_resolvable; [apply first_read0; assumption|].
+  right. exists n. split; [reflexivity|]. right. cbn [target]. rewrite Hr. discriminate.
+Qed.
+
+Lemma stored_read w i n v :
+  valid_index w i -> alookup n (i_dict (inst_at w i)) = Some v -> resolve w (inst_at w i) n <> None ->
+  step w (Read i n) = (w, v).
+Proof.
+  intros Hv Hd Hr. unfold step. rewrite resolved_if_resolvable; [apply stored_read0; assumption|].
+  right. exists n. split; [reflexivity|]. right. exact Hr.
+Qed.
+
+Lemma later_reads_same w i n t :
+  valid_index w i -> alookup n (i_dict (inst_at w i)) = None -> resolve w (inst_at w i) n = Some t ->
+  let w1 := fst (step w (Read i n)) in
+  let v := snd (step w (Read i n)) in
+  step w1 (Read i n) = (w1, v).
+Proof.
+  intros Hv Hd Hr. cbn zeta. rewrite (first_read w i n t Hv Hd Hr). cbn [fst snd].
+  apply stored_read.
+  - unfold valid_index in *. cbn [w_insts]. rewrite update_nth_length. exact Hv.
+  - unfold inst_at in *. cbn [w_insts]. rewrite nth_update_nth_same by (destruct Hv; lia).
+    cbn [i_dict]. rewrite alookup_app, Hd. cbn. rewrite Z.eqb_refl. reflexivity.
+  - unfold inst_at, resolve, class_of in *. cbn [w_insts w_classes]. rewrite nth_update_nth_same by (destruct Hv; lia).
+    cbn [i_itraits i_cls]. rewrite Hr. discriminate.
+Qed.
+
+Lemma default_not_aliased w i n t :
+  wf w -> valid_index w i -> alookup n (i_dict (inst_at w i)) = None -> resolve w (inst_at w i) n = Some t ->
+  forall x, In x (value_oids (snd (step w (Read i n)))) -> ~ In x (world_oids w).
+Proof.
+  intros Hwf Hv Hd Hr. unfold step. rewrite resolved_if_resolvable; [apply (default_not_aliased0 w i n t); assumption|].
+  right. exists n. split; [reflexivity|]. right. cbn [target]. rewrite Hr. discriminate.
+Qed.
+
+Lemma new_instance_is_empty w c :
+  nth_error (w_insts (fst (step w (NewInst c)))) (length (w_insts w)) = Some (new_inst c)
+  /\ w_next (fst (step w (NewInst c))) = w_next w.
+Proof. exact (new_instance_is_empty0 w c). Qed.
+
+Lemma introspect_inert w i md : valid_index w i -> step w (Introspect i md) = (w, mkV 0 []).
+Proof.
+  intros Hv. unfold step. rewrite resolved_if_resolvable; [apply introspect_inert0, Hv | left; reflexivity].
+Qed.
+
+Lemma set_meta_effect w i n code t :
+  valid_index w i -> alookup n (i_itraits (inst_at w i)) = Some t -> alookup n (class_of w (inst_at w i)) = None ->
+  let ins := inst_at w i in
+  step w (SetMeta i n code)
+  = (mkW (w_classes w)
+         (update_nth (Z.to_nat i)
+            (fun _ => mkI (i_cls ins) (i_dict ins)
+                          (aset n (mkT (t_kind t) (t_content t) (t_scalar t) (t_doid t) (t_nnotif t) (t_static t) (t_cmp t) code)
+                                (i_itraits ins))
+                          (i_calls ins) (i_log ins) (i_regs ins))
+            (w_insts w))
+         (w_next w),
+     mkV 0 []).
+Proof.
+  intros Hv Ht Hc. unfold step. rewrite resolved_if_resolvable; [apply set_meta_effect0; assumption | left; reflexivity].
+Qed.
+
+Lemma assign_from_copies w i n src t v :
+  wf w -> valid_index w i -> valid_index w src -> src <> i ->
+  alookup n (i_dict (inst_at w src)) = Some v -> resolve w (inst_at w i) n = Some t ->
+  let w' := fst (step w (AssignFrom i n src)) in
+  nth_error (w_insts w') (Z.to_nat src) = nth_error (w_insts w) (Z.to_nat src) /\
+  w_classes w' = w_classes w /\
+  exists v', alookup n (i_dict (inst_at w' i)) = Some v' /\
+             vcontent v' = vcontent (fst (assigned_value t (fst (payload_of v)) (snd (payload_of v)) (w_next w))) /\
+             forall x, In x (value_oids v') -> ~ In x (world_oids w).
+Proof.
+  intros Hwf Hv Hs Hne Hsv Hr. cbn zeta. unfold step.
+  rewrite resolved_if_resolvable; [apply assign_from_copies0; assumption | left; reflexivity].
+Qed.
+
+(* counters *)
+Lemma default_method_once cls next0 ops ins n c :
+  0 < next0 -> below next0 (flat_map (fun c => map (fun p => t_doid (snd p)) c) cls) ->
+  In ins (w_insts (final (mkW cls [] next0) ops)) -> In (n, c) (i_calls ins) ->
+  c = 1 /\ alookup n (i_dict ins) <> None.
+Proof.
+  intros Hp Hb Hin Hl. assert (H : wf (final (mkW cls [] next0) ops)) by (apply final_wf, wf_init; assumption).
+  destruct H as (_ & _ & _ & H). unfold world_calls_ok in H. rewrite Forall_forall in H. specialize (H ins Hin).
+  unfold calls_ok in H. rewrite Forall_forall in H. exact (H (n, c) Hl).
+Qed.
+
+(* the law *)
+Theorem law_on_model w o : wf w -> valid_op w o -> law_step w o (observe w o) = [].
+Proof.
+  intros Hwf Hvo. unfold law_step, observe. apply law_on_model0; [apply resolved_wf, Hwf | apply valid_op_resolved, Hvo].
+Qed.
+
+Lemma track_observe w o : valid_op w o -> track w o (observe w o) = fst (step w o).
+Proof. intros Hvo. unfold track, observe, step. apply track_observe0, valid_op_resolved, Hvo. Qed.
 
 Fixpoint obs_run (w : world) (ops : list op) : list (op * obs) :=
   match ops with
@@ -859,17 +1391,6 @@ Fixpoint valid_hist (w : world) (ops : list op) : Prop :=
   | o :: r => valid_op w o /\ valid_hist (fst (step w o)) r
   end.
 
-Lemma track_observe w o : valid_op w o -> track w o (observe w o) = fst (step w o).
-Proof.
-  intros Hvo. destruct (step_shape w o) as [[c ->]|[[Eerr Hbad]|(ins' & r & nx & Hv & Hi & Hs & E)]].
-  - unfold track, observe. cbn [step fst o_target o_next w_insts w_next w_classes target].
-    rewrite Nat2Z.id, app_nth2 by lia. rewrite Nat.sub_diag. reflexivity.
-  - exfalso. unfold valid_op in Hvo. destruct o; cbn [op_index target] in *; try (apply Hbad; exact Hvo).
-    cbn [step] in Eerr. unfold error_value in Eerr. congruence.
-  - rewrite (observe_normal w o ins' r nx E Hv), E. unfold track. cbn [o_target o_next fst].
-    destruct o; try reflexivity. discriminate Hi.
-Qed.
-
 Theorem law_on_histories : forall ops w k, wf w -> valid_hist w ops -> law_hist k w (obs_run w ops) = [].
 Proof.
   induction ops as [|o ops IH]; intros w k Hwf Hvh; [reflexivity|]. cbn [obs_run law_hist].
@@ -877,7 +1398,6 @@ Proof.
   rewrite (track_observe w o Hvo). apply IH; [apply step_wf, Hwf | exact Hvh].
 Qed.
 
-(* boolean form of history validity (for concrete examples) *)
 Definition valid_opb (w : world) (o : op) : bool :=
   match op_index o with
   | Some i => (0 <=? i) && (i <? Z.of_nat (length (w_insts w)))
@@ -892,7 +1412,7 @@ Lemma valid_histb_ok ops : forall w, valid_histb w ops = true -> valid_hist w op
 Proof.
   induction ops as [|o ops IH]; intros w H; [exact I|]. cbn [valid_histb valid_hist] in *.
   apply andb_true_iff in H. destruct H as [H1 H2]. split; [|apply IH, H2].
-  unfold valid_opb, valid_op in *. destruct (op_index o) as [i|]; [|exact I].
+  unfold valid_opb, valid_op, valid_op0 in *. destruct (op_index o) as [i|]; [|exact I].
   apply andb_true_iff in H1. destruct H1 as [Ha Hb]. apply Z.leb_le in Ha. apply Z.ltb_lt in Hb.
   unfold valid_index. lia.
 Qed.
